@@ -176,7 +176,11 @@ def run(ctx):
         cases = [ctx.replay["case"]]
     else:
         cases = generate(ctx.rng, ctx.tier)
-    obs, res, items = sc.evaluate(ctx, cases, "c18sel", SM_FN)
+    obs, res, items = sc.evaluate(ctx, cases, "c18sel", SM_FN, {"HYP": "hyp_c18"})
+    if res.get("HYP"):
+        ci, qi = res["HYP"][0]
+        raise RuntimeError("a real case does not satisfy parser_shape/db_wf (hypotheses of C18_select_no_panic): %s over %s"
+                           % (cases[ci]["queries"][qi], cases[ci]["tables"]))
     summ = sc.summarize(cases, obs)
     seen = set()
     nontriv = 0
@@ -198,6 +202,7 @@ def run(ctx):
                 "distinct by (tables, query text)",
         "traces_validated_against_impl": len(items),
         "databases": len(cases),
+        "cases_meeting_theorem_hypotheses": len(items) - len(res.get("HYP", [])),
         "samples": [{"query": cases[ci]["queries"][qi], "go": {k: obs[ci]["results"][qi].get(k) for k in ("kind", "err")}}
                     for ci, qi in items[:: max(1, len(items) // 5)][:5]],
     })
